@@ -1,6 +1,6 @@
 (* StackSafe.v -- clamping in front of array storage (C10's second clause). *)
 From Coq Require Import ZArith List Bool Lia ZifyBool.
-From Covfie Require Import Layout Stack StackProofs FloatOps StackFloat.
+From Covfie Require Import Numeric Layout Hilbert LayoutMem Stack StackProofs FloatOps StackFloat.
 Import ListNotations.
 Local Open Scope Z_scope.
 
@@ -96,3 +96,54 @@ Section Beneath.
     intros Hc Hd. unfold nearest_at. rewrite Hd. apply clamped_cell. now rewrite map_length.
   Qed.
 End Beneath.
+
+(* ---- the same over Morton and Hilbert storage: the clamped coordinate lies in the box, hence its curve position lies in
+   the padded storage the library allocates for that layer (curve_cap = ipow(round_pow2(max extent), N)) ---- *)
+Lemma map_mod_id_in_box (sizes c : list Z) : in_box sizes c -> (forall s, In s sizes -> s <= 2 ^ 64) ->
+  map (fun x => x mod 2 ^ 64) c = c.
+Proof.
+  intros H. induction H as [|x s c ss [Hx0 Hxs] _ IH]; intros Hs; cbn [map]; [reflexivity|].
+  rewrite Z.mod_small by (specialize (Hs s (or_introl eq_refl)); lia).
+  f_equal. apply IH. intros s' Hin. apply Hs. now right.
+Qed.
+
+Theorem clamp_safe_over_morton t (sizes lo hi : list Z) (b : query) c : is_float t = false ->
+  length lo = length c -> length hi = length c -> length sizes = length c -> (0 < length sizes)%nat ->
+  Forall2 (fun l h => 0 <= l <= h) lo hi -> Forall2 (fun h s => h < s) hi sizes ->
+  curve_bits sizes <= 64 / Z.of_nat (length sizes) ->
+  exists c', clamp_at flocq_ops t lo hi (morton_at (length sizes) sizes b) c
+               = b [morton (length sizes) (Z.to_nat (64 / Z.of_nat (length sizes))) c'] /\
+             0 <= morton (length sizes) (Z.to_nat (64 / Z.of_nat (length sizes))) c' < curve_cap sizes.
+Proof.
+  intros Ht Hl Hh Hs HN B1 B2 Hfit. exists (map3 (clamp1 flocq_ops t) c lo hi).
+  destruct (clamped_in_box t Ht c lo hi sizes Hl Hh Hs B1 B2) as [I1 I2].
+  assert (Hb : curve_bits sizes <= Z.of_nat (Z.to_nat (64 / Z.of_nat (length sizes)))).
+  { rewrite Z2Nat.id; [exact Hfit|]. apply Z.div_pos; lia. }
+  split.
+  - unfold clamp_at, morton_at. rewrite I1. f_equal. f_equal. f_equal.
+    apply (map_mod_id_in_box sizes); [exact I2|].
+    intros s Hin. pose proof (zmax_ge sizes s Hin) as Hm.
+    assert (zmax sizes <= 2 ^ curve_bits sizes).
+    { unfold curve_bits. destruct (Z.le_gt_cases (zmax sizes) 1) as [Hz|Hz].
+      - assert (0 < 2 ^ Z.log2_up (zmax sizes)) by (apply Z.pow_pos_nonneg; [lia|apply Z.log2_up_nonneg]). lia.
+      - apply Z.log2_up_spec in Hz. lia. }
+    assert (2 ^ curve_bits sizes <= 2 ^ 64).
+    { apply Z.pow_le_mono_r; [lia|]. apply Z.le_trans with (64 / Z.of_nat (length sizes)); [exact Hfit|].
+      apply Z.div_le_upper_bound; lia. }
+    lia.
+  - apply (morton_layout_range sizes _ HN Hb). exact I2.
+Qed.
+
+Theorem clamp_safe_over_hilbert t (sx sy : Z) (lo hi : list Z) (b : query) c : is_float t = false ->
+  length lo = length c -> length hi = length c -> length c = 2%nat ->
+  Forall2 (fun l h => 0 <= l <= h) lo hi -> Forall2 (fun h s => h < s) hi [sx; sy] ->
+  exists x y, clamp_at flocq_ops t lo hi (hilbert_at [sx; sy] b) c = b [Hl (Z.to_nat (curve_bits [sx; sy])) x y] /\
+              0 <= Hl (Z.to_nat (curve_bits [sx; sy])) x y < curve_cap [sx; sy].
+Proof.
+  intros Ht Hl Hh Hc B1 B2.
+  destruct (clamped_in_box t Ht c lo hi [sx; sy] Hl Hh (eq_sym Hc) B1 B2) as [I1 I2].
+  destruct (hilbert_dom sx sy _ I2) as (x & y & E & _ & _).
+  pose proof (hilbert_layout_range sx sy _ I2) as R. rewrite E in R. cbn [hidx] in R.
+  exists x, y. split; [|exact R].
+  unfold clamp_at, hilbert_at. rewrite E in *. now rewrite I1.
+Qed.
